@@ -813,9 +813,26 @@ class Session:
         return self.p.returncode, err
 
 
-def execute(impl, lines, modes, env=None):
+class Auditor:
+    """the extracted Coq auditor (KV/Audit.v) as a line server"""
+
+    def __init__(self):
+        self.exe = vlib.build_model("audit")
+        self.sess = Session(self.exe)
+        self.runs = 0
+
+    def audit(self, path):
+        self.runs += 1
+        return self.sess.ask("audit " + path)
+
+    def close(self):
+        self.sess.close()
+
+
+def execute(impl, lines, modes, env=None, auditor=None):
     """run one script against the implementation with the oracle; returns (final lines, outputs, oracle)"""
     orc = Oracle(modes)
+    cur_path, cur_wal = None, 0
     sess = Session(impl, env)
     final, outs = [], []
     for raw in lines:
@@ -853,10 +870,18 @@ def execute(impl, lines, modes, env=None):
         if line.startswith("open"):
             orc.step(i, line, out)
             orc.opened_before = True
+            cur_path, cur_wal = line.split()[1], int(line.split()[2])
         else:
             orc.step(i, line, out)
         if out is None:
             break
+        # independent reader of the file format: after a clean close always; without WAL (shared mapping of the
+        # file) also in the middle of a history, between two operations
+        if auditor is not None and cur_path and ((line == "close" and out == "OK") or
+                                                (cur_wal == 0 and line.split()[0] in ("struct", "sync"))):
+            verdict = auditor.audit(cur_path)
+            if verdict != "WF":
+                orc.bad.append((i, "independent reader of the file format rejects the image after `%s`: %s" % (line[:40], (verdict or "auditor died")[:300])))
     rc, err = sess.close()
     return final, outs, orc, rc, err
 
@@ -880,7 +905,7 @@ def compare_model(model, final, outs):
     return mism, (err if rc != 0 else None)
 
 
-def shrink(impl, lines, modes, pred, budget=60):
+def shrink(impl, lines, modes, pred, budget=60, auditor=None):
     """delta-debug a failing script: pred(final, outs, orc, rc) -> True when the failure is still there"""
     cur = list(lines)
     n = 2
@@ -923,7 +948,7 @@ def clean(lines):
             break
 
 
-def drive(run, profile, nscripts, nops, theorem_pid=None, asan=False, reopen=False, extra_check=None):
+def drive(run, profile, nscripts, nops, theorem_pid=None, asan=False, reopen=False, extra_check=None, audit=False):
     """common body of the KV checks"""
     proofs_ok = run.proofs(theorem_pid or run.pid)
     impl = vlib.build_harness("h_kv", "asan" if asan else "plain")
@@ -934,6 +959,7 @@ def drive(run, profile, nscripts, nops, theorem_pid=None, asan=False, reopen=Fal
     first_mism = None
     env = dict(os.environ)
     env["ASAN_OPTIONS"] = "detect_leaks=0:abort_on_error=1"
+    auditor = Auditor() if audit else None
     try:
         # corpus first
         cdir = os.path.join(vlib.VERIF, "corpus", run.pid)
@@ -958,7 +984,7 @@ def drive(run, profile, nscripts, nops, theorem_pid=None, asan=False, reopen=Fal
             scripts.append(("gen%d" % n, ls, meta))
         for name, ls, meta in scripts:
             clean(ls)
-            final, outs, orc, rc, err = execute(impl, ls, meta["modes"], env=env)
+            final, outs, orc, rc, err = execute(impl, ls, meta["modes"], env=env, auditor=auditor)
             crashed = rc not in (0, None) or (outs and outs[-1] is None)
             nontriv = sum(1 for l in final if l.split()[0] in ("put", "del", "cset", "cdel")) > 20
             run.case("\n".join(final), nontrivial=nontriv,
@@ -978,7 +1004,7 @@ def drive(run, profile, nscripts, nops, theorem_pid=None, asan=False, reopen=Fal
                     if kind == "crash":
                         return r not in (0, None) or (o and o[-1] is None)
                     return any(b[1].split("  [line")[0] == first_msg for b in oc.bad)
-                small = shrink(impl, final, meta["modes"], pred)
+                small = shrink(impl, final, meta["modes"], pred, auditor=auditor)
                 clean(small)
                 run.violation({"script": small, "modes": meta["modes"], "kind": kind, "class": first_msg or "crash",
                                "harness": "h_kv", "failures": [b[1] for b in orc.bad[:5]]}, why)
@@ -999,6 +1025,9 @@ def drive(run, profile, nscripts, nops, theorem_pid=None, asan=False, reopen=Fal
         if total_mism:
             run.broken.append("T2 correspondence (node/cursor model vs implementation): %d differing answers; first: %s" % (total_mism, first_mism))
     finally:
+        if auditor:
+            run.cov["images_audited"] = auditor.runs
+            auditor.close()
         shutil.rmtree(work, ignore_errors=True)
 
 RULE = ("operation scripts generated from VERIF_SEED (key pools that fill nodes beyond 32 records, shared prefixes of 113..116 bytes, "
@@ -1021,7 +1050,10 @@ def replay(run, path):
             l = " ".join(f)
         ls.append(l)
     clean(ls)
-    final, outs, orc, rc, err = execute(impl, ls, r["modes"])
+    aud = Auditor() if run.pid == "C06" else None
+    final, outs, orc, rc, err = execute(impl, ls, r["modes"], auditor=aud)
+    if aud:
+        aud.close()
     for i, (l, o) in enumerate(zip(final, outs)):
         print("%4d %s -> %s" % (i, l[:100], (o or "<no answer>")[:140]))
     for b in orc.bad[:5]:
